@@ -174,6 +174,10 @@ def check_case(ctx, model, case, run_oracle=False):
     )
     if case.get("_branch"):
         ctx.count(f"model-branch:{fam}:{case['_branch']}")
+    if fam == "l21":
+        ctx.count("l21:axis=" + json.dumps(case["params"].get("axis", 0)) + f":nd={'block' if case.get('blocks') is not None else len(case['shape'])}")
+        if not case.get("_groups_agree", True):
+            raise common.Infra("l21: the model's labelling (axisGroup/blockGroup) and the harness's numpy labelling induce different partitions")
     if fam == "nuclear" and "_svd" in case:
         ctx.count("svd-contract-checked")
         if case["_svd"]:
@@ -325,7 +329,7 @@ def _guard_observe(cls, wk, ak, ynonneg):
     import scico.numpy as snp
     from scico import linop, loss, operator
 
-    y = snp.array(np.array([1.0, 0.5] if ynonneg else [1.0, -0.5]))
+    y = snp.array(np.array([0.5, 1.0] if ynonneg else [-0.5, 1.0]))
     W = {"none": None, "diag_nonneg": linop.Diagonal(snp.array(np.array([1.5, 0.0]))),
          "diag_negative": linop.Diagonal(snp.array(np.array([1.0, -0.25]))), "not_diagonal": np.array([1.0, 1.0])}[wk]
     A = {"none": None, "identity": linop.Identity((2,), input_dtype=np.float64),
@@ -370,7 +374,7 @@ def guard_cases(ctx, model):
                     if obs == "has_prox" and ak in ("none", "identity") and wk in ("none", "diag_nonneg"):
                         # a prox is advertised where the model says there is none (e.g. negative data): evaluate the property there
                         c = {"fam": cls, "params": {"scale": 0.5, "A": ak, "rescale": []}, "shape": [2], "blocks": None, "cplx": False,
-                             "dtype": "float64", "lam": 1.0, "v": [0.5, -2.0], "y": [1.0, 0.5] if yn else [1.0, -0.5],
+                             "dtype": "float64", "lam": 1.0, "v": [0.125, -2.0], "y": [0.5, 1.0] if yn else [-0.5, 1.0],
                              "w": None if wk == "none" else [1.5, 0.0]}
                         orc = lambda _c, c=c: make_oracle(ctx.seed)(c)  # noqa: E731
                         desc = dict(desc, prox_case=c)
